@@ -798,6 +798,9 @@ type Data struct {
 
 	metadata   map[Schema][]byte
 	metadataMu sync.RWMutex
+
+	// serialises the read-modify-write of an annotation (stored record and in-memory copy)
+	updateMu sync.Mutex
 }
 
 // IsMutationRequest overrides the default behavior to specify POST /query as an immutable
@@ -1417,6 +1420,11 @@ func (d *Data) storeAndUpdate(ctx *datastore.VersionedCtx, keyStr string, newDat
 		return err
 	}
 
+	// The stored record is read, merged with the new fields and written back: two updates of one
+	// body at once must not both start from the same old record.
+	d.updateMu.Lock()
+	defer d.updateMu.Unlock()
+
 	// get original data so we can handle default update and tell which values change for _user/_time fields.
 	origData, found, err := d.getStoreData(ctx, keyStr)
 	if err != nil {
@@ -1580,6 +1588,10 @@ func (d *Data) DeleteData(ctx storage.VersionedCtx, keyStr string) error {
 	if err != nil {
 		return err
 	}
+	// not in the middle of an update of the same annotation
+	d.updateMu.Lock()
+	defer d.updateMu.Unlock()
+
 	mdb, found := d.getMemDBbyVersion(ctx.VersionID())
 	if found {
 		mdb.mu.Lock()
